@@ -269,6 +269,7 @@ func (f *faultHandler) GetE(c common.GetRequest) (<-chan common.GetEResponse, <-
 	}
 	return f.inner.GetE(c)
 }
+
 // Close closes the backend connection; with a "+closeerr" plan it reports an error once the
 // fault has fired, the way closing an already broken socket does.
 func (f *faultHandler) Close() error {
